@@ -33,6 +33,9 @@ pub enum WEv {
     Interrupted,
     /// no room until the reading side has consumed this many octets (back-pressure in both directions)
     WaitRead(usize),
+    /// every call is served (as far as it goes) until this many octets have been written in total; the call after that
+    /// fails. Where the failure falls does not depend on how the writer under test slices its calls.
+    FailAt(usize),
 }
 
 #[derive(Default)]
@@ -147,6 +150,7 @@ pub fn parse_wevs(s: &str) -> Option<Vec<WEv>> {
                 "p" => WEv::Pending,
                 "f" => WEv::Fail,
                 "i" => WEv::Interrupted,
+                _ if t.starts_with('F') => WEv::FailAt(t[1..].parse().ok()?),
                 _ if t.starts_with('r') => WEv::WaitRead(t[1..].parse().ok()?),
                 _ if t.starts_with('a') => WEv::Accept(t[1..].parse().ok()?),
                 _ => return None,
@@ -270,6 +274,25 @@ impl AsyncWrite for Scripted {
                 Poll::Ready(Err(std::io::Error::new(kind, "scripted failure")))
             }
             WEv::Interrupted => Poll::Ready(Err(std::io::Error::new(std::io::ErrorKind::Interrupted, "scripted EINTR"))),
+            WEv::FailAt(n) => {
+                if s.written.len() >= n {
+                    s.failed = true;
+                    let kind = fault_kind(s.written.len());
+                    return Poll::Ready(Err(std::io::Error::new(kind, "scripted failure")));
+                }
+                let k = data.len().min(n - s.written.len());
+                s.wr.push_front(WEv::FailAt(n));
+                s.written.extend_from_slice(&data[..k]);
+                if let Some(u) = s.ulog.clone() {
+                    sync_hooks(&u);
+                    let at = s.tag.map(|c| format!("@{}", c)).unwrap_or_default();
+                    u.lock().unwrap().push(format!("wr{}:{}", at, k));
+                }
+                if let Some(w) = s.read_waker.take() {
+                    w.wake();
+                }
+                Poll::Ready(Ok(k))
+            }
             WEv::WaitRead(n) => {
                 if s.consumed >= n {
                     drop(s);
